@@ -5,31 +5,8 @@ From PC.Base Require Import Assoc.
 From PC.Sup Require Import Model Monitors Tactics Sim ObsFacts Effects RelCore LemC04.
 Import ListNotations RecordSetNotations.
 
-Lemma upd_inst_stage i f s : stage (upd_inst i f s) = stage s. Proof. frame_tac. Qed.
-Lemma upd_vis_stage n f s : stage (upd_vis n f s) = stage s. Proof. frame_tac. Qed.
-Lemma set_thread_stage th t s : stage (set_thread th t s) = stage s. Proof. reflexivity. Qed.
-Lemma write_status_stage n s0 s : stage (write_status n s0 s) = stage s.
-Proof. unfold write_status. now rewrite upd_vis_stage. Qed.
-#[export] Hint Rewrite upd_inst_stage upd_vis_stage set_thread_stage write_status_stage : sup.
-
-Lemma at_stage_get s th i k : at_stage s th i k = true -> get i (stage s) = Some (th, k).
-Proof.
-  unfold at_stage. destruct (get i (stage s)) as [[t k']|]; [|discriminate]. intros H.
-  apply andb_true_iff in H. destruct H as [H1 H2]. apply N.eqb_eq in H1. apply Nat.eqb_eq in H2. now subst.
-Qed.
-
-Definition stage_eff (s : sys) (th : tid) (e : event) (s' : sys) : Prop :=
-  match e with
-  | ENewInst i _ => stage s' = set i (th, 0) (stage s)
-  | EState i _ => stage s' = stage s \/ (stage s' = set i (th, 1) (stage s) /\ get i (stage s) = Some (th, 0))
-  | ERegAdd i _ => stage s' = set i (th, 2) (stage s) /\ get i (stage s) = Some (th, 1)
-  | ESpawn i _ => stage s' = set i (th, 3) (stage s) /\ get i (stage s) = Some (th, 2)
-  | EBegin i => stage s' = del i (stage s) /\ exists c, get i (stage s) = Some (c, 3)
-  | _ => stage s' = stage s
-  end.
-
 Ltac stage_tac :=
-  unfold stage_eff; destr_state; sup_simpl; cbn -[get Assoc.set N.eqb get_thread]; sup_simpl; cbn -[get Assoc.set N.eqb get_thread];
+  unfold stage_eff; destr_state; sup_goal; cbn -[get Assoc.set N.eqb get_thread]; sup_goal; cbn -[get Assoc.set N.eqb get_thread];
   repeat match goal with H : at_stage _ _ _ _ = true |- _ => apply at_stage_get in H end;
   try reflexivity; auto.
 
